@@ -12,7 +12,7 @@ import z3
 from symnp import Engine, Rebinder, SV, SB, SIdx, SymArray, sym_array, to_obj, _raw, arr1
 from symnp import ob as O
 from symnp.explore import Out
-from vf.common import Harness, snap, stubs, RngStub, cached_options, LoggerStub, TargetFault, col
+from vf.common import Harness, snap, stubs, RngStub, cached_options, LoggerStub, TargetFault, FaultSite, col
 
 import pybads.bads.bads as badsmod
 import pybads.search.grid_functions as gfmod
@@ -35,6 +35,7 @@ class HSS(Harness):
         p = self.p
         D, M, k0 = p["D"], p.get("M", 1), p.get("k0", -1)
         level, cons, fault, sc0 = p.get("level", 0), p.get("cons"), p.get("fault", False), p.get("sc0", 1)
+        fsite = FaultSite(p.get("fault_kind"))
         opts = cached_options(D, {})
         opts["noise_size"] = math.sqrt(opts["tol_fun"]) if level == 0 else 1.0
         opts["specify_target_noise"] = level == 2
@@ -126,6 +127,10 @@ class HSS(Harness):
 
         class FL:
             func_count = 10
+            # the real logger's flags are fixed by BADS.__init__ (level0); auto-detected noise raises only optim_state's level
+            noise_flag = p.get("level0", level) > 0
+            he_noise_flag = p.get("level0", level) == 2
+            uncertainty_handling_level = p.get("level0", level)
             X = Xlog
             X_max_idx = M - 1
             variable_transformer = VT()
@@ -133,7 +138,7 @@ class HSS(Harness):
             def __call__(s, u, record_duplicate_data=True):
                 if fault and eng.choose("fault"):
                     us.append(None)
-                    raise TargetFault("target failed")
+                    fsite.fire("target failed")
                 y = eng.fresh_real("y")
                 ys.append(y)
                 us.append(snap(np.asarray(_raw(u))))
@@ -195,13 +200,15 @@ class HSS(Harness):
         exc = None
         try:
             self._search_step_(gp)
-        except TargetFault as e:
+        except Exception as e:
+            if not fsite.raised:
+                raise
             exc = e
         n = len(ys)
         out.tag = dict(n=n, succ=int(self.search_success), sc=int(self.optim_state["search_count"]), exc=bool(exc), calls=len(us))
         if fault:
             faulted = [i for i, u_ in enumerate(us) if u_ is None]
-            out.ob("fault_escapes_unchanged", (exc is not None) == bool(faulted))
+            out.ob("fault_escapes_unchanged", (exc is not None) == bool(faulted) and fsite.escaped(exc))
             out.ob("no_call_after_fault", (not faulted) or faulted[0] == len(us) - 1)
         if exc is not None:
             return out
